@@ -1,1 +1,371 @@
+//! Strategies for NMEA sentences and line histories. Every sentence is rendered by the builder
+//! R6, so its checksum is correct unless a generator deliberately asks otherwise.
 
+use crate::engine::{Input, Line};
+use crate::gen::payload::{plan, realise, LenMode};
+use crate::refmodel::armor::{self, ALPHABET};
+use crate::refmodel::build::{self, Cks, Num, Spec};
+use crate::refmodel::layout::{Prop, SUPPORTED};
+use proptest::prelude::*;
+
+pub const TALKERS: [&[u8; 2]; 10] = [b"AB", b"AD", b"AI", b"AN", b"AR", b"AS", b"AT", b"AX", b"BS", b"SA"];
+
+pub fn num(max: u32) -> impl Strategy<Value = Num> {
+    (0..=max, prop_oneof![8 => Just(0u8), 2 => 1u8..4, 1 => 4u8..40]).prop_map(|(v, zeros)| Num { v, zeros })
+}
+
+pub fn small_num() -> impl Strategy<Value = u32> {
+    prop_oneof![
+        6 => 0u32..=10,
+        2 => Just(255u32),
+        1 => Just(254u32),
+        2 => 0u32..=255,
+    ]
+}
+
+/// a byte that may appear inside a field: anything but ',' and '*' (and, for safety of the line
+/// structure the CLI sees, '\n')
+pub fn field_byte() -> impl Strategy<Value = u8> {
+    any::<u8>().prop_map(|b| if b == b',' || b == b'*' || b == b'\n' { b'x' } else { b })
+}
+
+pub fn address() -> impl Strategy<Value = [u8; 5]> {
+    let talker = prop_oneof![
+        6 => (0usize..10).prop_map(|i| *TALKERS[i]),
+        2 => prop::sample::select(vec![*b"Ai", *b"AJ", *b"BA", *b"aI", *b"ai", *b"SB", *b"A ", *b"\x00\x00"]),
+        2 => (field_byte(), field_byte()).prop_map(|(a, b)| [a, b]),
+    ];
+    let report = prop_oneof![
+        4 => Just(*b"VDM"),
+        3 => Just(*b"VDO"),
+        1 => prop::sample::select(vec![*b"VDm", *b"vdm", *b"VDN", *b"DMV", *b"XXX"]),
+        1 => (field_byte(), field_byte(), field_byte()).prop_map(|(a, b, c)| [a, b, c]),
+    ];
+    (talker, report).prop_map(|(t, r)| [t[0], t[1], r[0], r[1], r[2]])
+}
+
+pub fn channel() -> impl Strategy<Value = Vec<u8>> {
+    prop_oneof![
+        3 => Just(vec![]),
+        3 => Just(b"A".to_vec()),
+        3 => Just(b"B".to_vec()),
+        1 => Just(b"1".to_vec()),
+        1 => Just(b"2".to_vec()),
+        2 => proptest::collection::vec(field_byte(), 1..6),
+        1 => (128u8..=255).prop_map(|b| vec![b]),
+        1 => (128u8..=255, field_byte()).prop_map(|(a, b)| vec![a, b]),
+    ]
+}
+
+pub fn alphabet_string(max: usize) -> impl Strategy<Value = Vec<u8>> {
+    proptest::collection::vec((0usize..64).prop_map(|i| ALPHABET[i]), 1..=max)
+}
+
+/// armoured characters (and fill) of a reference-encoded message of any supported type
+pub fn message_chars(mode: LenMode) -> impl Strategy<Value = (Vec<u8>, u8)> {
+    plan(4).prop_map(move |p| {
+        let bytes = realise(&p, &SUPPORTED, mode, Prop::C04);
+        if bytes.is_empty() {
+            (b"0".to_vec(), 0)
+        } else {
+            armor::armor_bytes(&bytes)
+        }
+    })
+}
+
+/// payload field contents: decodable messages, alphabet strings, arbitrary bytes
+pub fn payload_field(max: usize) -> impl Strategy<Value = (Vec<u8>, u8)> {
+    prop_oneof![
+        4 => message_chars(LenMode::Standard).prop_map(move |(c, f)| (c[..c.len().min(max)].to_vec(), f)),
+        1 => message_chars(LenMode::Any).prop_map(move |(c, f)| (c[..c.len().min(max)].to_vec(), f)),
+        3 => (alphabet_string(max.min(90)), 0u8..6),
+        1 => (alphabet_string(max), 0u8..6),
+        2 => (proptest::collection::vec(field_byte(), 1..=max.min(60)), 0u8..6),
+    ]
+}
+
+pub fn tag_block() -> impl Strategy<Value = Option<Vec<u8>>> {
+    prop_oneof![
+        6 => Just(None),
+        2 => Just(Some(b"s:2573345,c:1696241893*00".to_vec())),
+        1 => proptest::collection::vec(any::<u8>().prop_map(|b| if b == b'\\' || b == b'\n' { b'y' } else { b }), 1..30).prop_map(Some),
+    ]
+}
+
+pub fn tail() -> impl Strategy<Value = Vec<u8>> {
+    prop_oneof![
+        6 => Just(vec![]),
+        2 => Just(b"\r".to_vec()),
+        1 => Just(b"\r\n".to_vec()),
+        1 => Just(b" ".to_vec()),
+        1 => proptest::collection::vec(any::<u8>().prop_map(|b| if b.is_ascii_hexdigit() || b == b'\n' { b'z' } else { b }), 1..8),
+    ]
+}
+
+/// (digits, lower-case) spelling of the checksum
+pub fn cks_spelling() -> impl Strategy<Value = (u8, bool)> {
+    (prop_oneof![8 => Just(2u8), 1 => Just(1u8), 2 => 3u8..=8], prop::bool::weighted(0.25))
+}
+
+/// A well-formed sentence with every field randomised and the numbering given.
+pub fn spec_with_numbering(n: Num, k: Num, id: Option<Num>) -> impl Strategy<Value = Spec> {
+    (tag_block(), prop::bool::weighted(0.2), address(), channel(), payload_field(120), tail(), cks_spelling(), any::<bool>()).prop_map(
+        move |(tag, dollar, addr, channel, (payload, fill), tail, (cks_digits, cks_lower), zero_fill)| Spec {
+            tag,
+            delim: if dollar { b'$' } else { b'!' },
+            addr,
+            n: n.clone(),
+            k: k.clone(),
+            id: id.clone(),
+            channel,
+            payload,
+            fill: Num { v: fill as u32, zeros: if zero_fill { 2 } else { 0 } },
+            cks: Cks::Correct,
+            cks_digits,
+            cks_lower,
+            tail,
+        },
+    )
+}
+
+/// numbering that a fresh parser accepts: (1,1) or first fragment of n >= 2
+pub fn accepted_numbering() -> impl Strategy<Value = (Num, Num, Option<Num>)> {
+    let id = prop_oneof![3 => Just(None), 4 => num(9).prop_map(Some), 2 => num(255).prop_map(Some)];
+    prop_oneof![
+        3 => (Just(Num::plain(1)), Just(Num::plain(1)), id.clone()),
+        1 => (num(1).prop_map(|mut n| { n.v = 1; n }), num(1).prop_map(|mut n| { n.v = 1; n }), id.clone()),
+        3 => (2u32..=255, prop_oneof![6 => Just(0u8), 1 => 1u8..3], id).prop_map(|(n, z, id)| (Num { v: n, zeros: z }, Num { v: 1, zeros: z }, id)),
+    ]
+}
+
+pub fn wellformed_spec() -> impl Strategy<Value = Spec> {
+    accepted_numbering().prop_flat_map(|(n, k, id)| spec_with_numbering(n, k, id))
+}
+
+// ------------------------------------------------------------------------------------------
+// histories
+
+/// one event of a generated history, before rendering
+#[derive(Clone, Debug)]
+pub enum Ev {
+    /// unfragmented sentence
+    Single { payload: Vec<u8>, fill: u8, decode: bool },
+    /// fragment k of n with sequence id
+    Frag { n: u8, k: u8, id: Option<u8>, payload: Vec<u8>, fill: u8, decode: bool },
+    /// a well-formed sentence with a wrong checksum
+    BadChecksum { n: u8, k: u8, id: Option<u8>, payload: Vec<u8> },
+    /// arbitrary bytes
+    Raw(Vec<u8>),
+}
+
+pub fn render_ev(e: &Ev) -> Line {
+    match e {
+        Ev::Single { payload, fill, decode } => Line::new(build::line(1, 1, None, b"A", payload, *fill as u32), *decode),
+        Ev::Frag { n, k, id, payload, fill, decode } => Line::new(build::line(*n as u32, *k as u32, id.map(|i| i as u32), b"B", payload, *fill as u32), *decode),
+        Ev::BadChecksum { n, k, id, payload } => {
+            let mut s = Spec::simple(*n as u32, *k as u32, id.map(|i| i as u32), b"A", payload, 0);
+            s.cks = Cks::Delta(0x11);
+            Line::new(s.render(), false)
+        }
+        Ev::Raw(b) => Line::new(b.clone(), false),
+    }
+}
+
+pub fn seq_id() -> impl Strategy<Value = Option<u8>> {
+    prop_oneof![2 => Just(None), 5 => (0u8..4).prop_map(Some), 2 => (0u8..=9).prop_map(Some), 1 => any::<u8>().prop_map(Some)]
+}
+
+/// short payload whose content identifies it (so that a delivered concatenation shows which
+/// fragments were used, and in what order)
+pub fn token_payload() -> impl Strategy<Value = Vec<u8>> {
+    alphabet_string(6)
+}
+
+pub fn malformed_line() -> impl Strategy<Value = Vec<u8>> {
+    prop_oneof![
+        2 => Just(b"".to_vec()),
+        2 => Just(b"!AIVDM,1,1,,A,15,0".to_vec()),
+        2 => Just(b"!AIVDM,2,1,,A,,0*00".to_vec()),
+        2 => Just(b"$GPGGA,123519,4807.038,N,01131.000,E,1,08,0.9,545.4,M,46.9,M,,*47".to_vec()),
+        2 => Just(b"!AIVDM,1,1,,A,15,6*2F".to_vec()),
+        3 => proptest::collection::vec(any::<u8>().prop_map(|b| if b == b'\n' { b' ' } else { b }), 0..40),
+    ]
+}
+
+/// noise that must leave no trace: unfragmented sentences, bad checksums, malformed lines
+pub fn noise_ev() -> impl Strategy<Value = Ev> {
+    prop_oneof![
+        4 => (payload_field(60), any::<bool>()).prop_map(|((payload, fill), decode)| Ev::Single { payload, fill, decode }),
+        2 => (2u8..6, 1u8..6, seq_id(), token_payload()).prop_map(|(n, k, id, payload)| Ev::BadChecksum { n, k: k.min(n), id, payload }),
+        1 => token_payload().prop_map(|payload| Ev::BadChecksum { n: 1, k: 1, id: None, payload }),
+        3 => malformed_line().prop_map(Ev::Raw),
+    ]
+}
+
+/// any validly numbered fragment (1 <= k <= n, n >= 2), ids from a small pool
+pub fn any_fragment() -> impl Strategy<Value = Ev> {
+    (2u8..=9, any::<u16>(), seq_id(), token_payload()).prop_map(|(n, ksel, id, payload)| {
+        let k = 1 + ((ksel as u32 * n as u32) >> 16) as u8;
+        Ev::Frag { n, k, id, payload, fill: 0, decode: false }
+    })
+}
+
+/// Adversarial histories for C06 / C17 / C01: groups with loss, duplication, reordering,
+/// interleaving, id reuse, mixed with noise.
+pub fn adversarial_events(max_len: usize) -> impl Strategy<Value = Vec<Ev>> {
+    // a "script" element is either one loose event or a whole group played with defects
+    let group = (2u8..=6, seq_id(), proptest::collection::vec(token_payload(), 6), proptest::collection::vec(0u8..10, 6), any::<bool>()).prop_map(
+        |(n, id, toks, defects, decode_last)| {
+            let mut evs = Vec::new();
+            for k in 1..=n {
+                let payload = toks[(k - 1) as usize % toks.len()].clone();
+                let ev = Ev::Frag { n, k, id, payload, fill: 0, decode: k == n && decode_last };
+                match defects[(k - 1) as usize % defects.len()] {
+                    0 => {} // lost
+                    1 => {
+                        evs.push(ev.clone());
+                        evs.push(ev); // duplicated
+                    }
+                    2 => {
+                        // swapped with the previous one
+                        let l = evs.len();
+                        if l > 0 {
+                            evs.insert(l - 1, ev);
+                        } else {
+                            evs.push(ev);
+                        }
+                    }
+                    _ => evs.push(ev),
+                }
+            }
+            evs
+        },
+    );
+    let elem = prop_oneof![
+        5 => group,
+        3 => any_fragment().prop_map(|e| vec![e]),
+        2 => noise_ev().prop_map(|e| vec![e]),
+    ];
+    proptest::collection::vec(elem, 1..8).prop_map(move |v| {
+        let mut out: Vec<Ev> = v.into_iter().flatten().collect();
+        out.truncate(max_len);
+        out
+    })
+}
+
+pub fn events_to_input(evs: &[Ev]) -> Input {
+    Input::History { lines: evs.iter().map(render_ev).collect() }
+}
+
+/// In-order groups for C05: payload split at arbitrary character boundaries into 2..=9
+/// fragments, any prior history, noise between the fragments.
+pub fn inorder_group_history() -> impl Strategy<Value = Input> {
+    let payload = prop_oneof![
+        5 => message_chars(LenMode::Standard),
+        1 => message_chars(LenMode::Any),
+        2 => (alphabet_string(120), 0u8..6),
+        1 => (alphabet_string(380), 0u8..6),
+    ];
+    let prior = prop_oneof![
+        3 => Just(Vec::<Ev>::new()),
+        5 => adversarial_events(10),
+    ];
+    (
+        payload,
+        2usize..=9,
+        proptest::collection::vec(any::<u16>(), 8),
+        prop_oneof![2 => Just(None), 4 => (0u8..=9).prop_map(Some), 2 => any::<u8>().prop_map(Some)],
+        prior,
+        proptest::collection::vec(proptest::collection::vec(noise_or_stray(), 0..3), 9),
+        proptest::collection::vec(any::<bool>(), 9),
+        proptest::collection::vec(0u8..6, 9),
+        any::<u8>(),
+    )
+        .prop_map(|((chars, fill), nfrag, cutsel, id, prior, between, decodes, fills, zeros)| {
+            let chars = if chars.len() < 2 { b"15".to_vec() } else { chars };
+            let n = nfrag.min(chars.len());
+            // n-1 distinct cut points in 1..len
+            let mut cuts: Vec<usize> = Vec::new();
+            for s in cutsel.iter() {
+                if cuts.len() + 1 >= n {
+                    break;
+                }
+                let c = 1 + ((*s as usize * (chars.len() - 1)) >> 16);
+                if !cuts.contains(&c) {
+                    cuts.push(c);
+                }
+            }
+            let mut c = 1;
+            while cuts.len() + 1 < n {
+                if !cuts.contains(&c) {
+                    cuts.push(c);
+                }
+                c += 1;
+            }
+            cuts.sort();
+            let pieces = build::split_at(&chars, &cuts);
+            let n = pieces.len() as u32;
+            let mut lines: Vec<Line> = prior.iter().map(render_ev).collect();
+            for (i, piece) in pieces.iter().enumerate() {
+                let k = i as u32 + 1;
+                let last = k == n;
+                let mut s = Spec::simple(n, k, id.map(|x| x as u32), b"A", piece, if last { fill as u32 } else { fills[i % fills.len()] as u32 });
+                if zeros & 3 == 3 {
+                    // numbers written with leading zeros
+                    s.n.zeros = 1;
+                    s.k.zeros = 2;
+                    if let Some(idn) = &mut s.id {
+                        idn.zeros = 1;
+                    }
+                }
+                lines.push(Line::new(s.render(), decodes[i % decodes.len()]));
+                if !last {
+                    for e in &between[i % between.len()] {
+                        lines.push(render_ev(&resolve_stray(e, n as u8, k as u8, id)));
+                    }
+                }
+            }
+            Input::History { lines }
+        })
+}
+
+/// noise between fragments: the kinds of lines C05 names — unfragmented sentences and rejected
+/// lines, the latter including out-of-sequence fragments relative to the group being played.
+#[derive(Clone, Debug)]
+pub enum Stray {
+    Noise(Ev),
+    /// duplicate of the fragment just sent
+    Duplicate(Vec<u8>),
+    /// a fragment two ahead
+    Gap(Vec<u8>),
+    /// the right number with another id
+    OtherId(Vec<u8>),
+    /// an earlier number (>= 2)
+    Earlier(Vec<u8>),
+}
+
+pub fn noise_or_stray() -> impl Strategy<Value = Stray> {
+    prop_oneof![
+        5 => noise_ev().prop_map(Stray::Noise),
+        1 => token_payload().prop_map(Stray::Duplicate),
+        1 => token_payload().prop_map(Stray::Gap),
+        1 => token_payload().prop_map(Stray::OtherId),
+        1 => token_payload().prop_map(Stray::Earlier),
+    ]
+}
+
+fn resolve_stray(s: &Stray, n: u8, k: u8, id: Option<u8>) -> Ev {
+    let other_id = match id {
+        None => Some(7),
+        Some(i) => Some(i.wrapping_add(1)),
+    };
+    match s {
+        Stray::Noise(e) => e.clone(),
+        // all of these are rejected by the sequencing rule while fragment k was the last accepted
+        Stray::Duplicate(p) if k >= 2 => Ev::Frag { n, k, id, payload: p.clone(), fill: 0, decode: false },
+        Stray::Gap(p) if k + 2 <= n => Ev::Frag { n, k: k + 2, id, payload: p.clone(), fill: 0, decode: false },
+        Stray::OtherId(p) => Ev::Frag { n, k: k + 1, id: other_id, payload: p.clone(), fill: 0, decode: false },
+        Stray::Earlier(p) if k >= 3 => Ev::Frag { n, k: k - 1, id, payload: p.clone(), fill: 0, decode: false },
+        Stray::Duplicate(p) | Stray::Gap(p) | Stray::Earlier(p) => Ev::BadChecksum { n, k, id, payload: p.clone() },
+    }
+}
